@@ -259,7 +259,9 @@ def oracle_ba(case, res, bi, j, only=None):
                         "state_index": ns, "mean": float(sum(p * nb[ns] for nb, p in bn)), "prediction": str(pred[ns])}
         # each successor is the Bayes posterior of the observations that lead to it, with their total probability
         for nb, p in bn:
-            os_ = [o for o in range(nO) if Zs[o] > 0 and all(close(x, y) for x, y in zip(nb, post[o]))]
+            # matching at 1e-11 relative: float error is ~1e-15, distinct posteriors of near-twin kernels are ~1e-9 apart
+            os_ = [o for o in range(nO) if Zs[o] > 0 and
+                   all(abs(x - y) <= F(1, 10**11) * abs(y) for x, y in zip(nb, post[o]))]
             if not os_ or not close(p, sum(Zs[o] for o in os_)):
                 return {"clause": "belief-MDP successor / probability is not (Bayes posterior, total probability of its observations)",
                         "belief": [float(x) for x in nb], "prob": float(p)}
@@ -336,7 +338,8 @@ def _run(ctx, tier):
             # wrong observation tensor: compare it exactly here, the Coq comparison is skipped for this case
             try:
                 Ob_ = model_arrays(case, res)[4]
-                if [[[vlib.frac(x) for x in r] for r in m] for m in res["observation_matrix"]] != Ob_:
+                if [[[vlib.frac(x) for x in r] for r in m] for m in res["observation_matrix"]] != \
+                        [[[F(float(x)) for x in r] for r in m] for m in Ob_]:
                     ctx.violation("C07:observation_matrix:differs-from-observation_dist",
                                   {"case": case, "observation_matrix": res["observation_matrix"],
                                    "clause": "observation_matrix[a, ns, o] is not observation_dist(a, ns).prob(o)"}, found=True)
@@ -453,13 +456,19 @@ def _run(ctx, tier):
                 ai = res["beliefs"][bi]["actions"][j]["ai"]
                 nevals += 1
                 failed = [c for c, okv in zip(CLAUSES, flags) if not okv]
+                rws = res["beliefs"][bi]["actions"][j]["belief_reward_by_successor"]
+                if any(x != rws[0] for x in rws):
+                    ctx.violation("C07:belief_reward:depends-on-the-successor-belief",
+                                  {"case": case, "belief_index": bi, "belief": be, "action_index": ai, "rewards": rws,
+                                   "clause": "the belief-MDP reward is the belief-expected immediate reward (one number per belief and action)"},
+                                  found=True)
                 if "belief_next_count" in failed and (not be["dyadic"] or any(
                         case["pomdp"].get(k_) for k_ in ("obs_tiny", "obs_near_twin", "nondyadic", "trans_tiny", "init_tiny"))):
                     # float arithmetic is exact only for k/8 data: otherwise rounding may split an exact tie
                     failed.remove("belief_next_count")
                 if not failed:
                     continue
-                why = oracle_ba(case, res, bi, j)
+                why = oracle_ba(case, res, bi, j, only=failed)
                 detail = {"case": case, "belief_index": bi, "belief": be, "action_index": ai,
                           "failed_comparisons": failed, "impl": res["beliefs"][bi]["actions"][j]}
                 if why:
